@@ -158,6 +158,8 @@ pub struct Call {
     /// what the device answered (signal index into the signal list, value)
     pub answer: Vec<(usize, OutVal)>,
     pub failed: bool,
+    /// the scripted deviation from the first layout was applied to this answer
+    pub deviated: bool,
 }
 
 #[derive(Debug)]
@@ -211,6 +213,7 @@ impl Core {
                 .collect(),
             answer: vec![],
             failed: false,
+            deviated: false,
         });
         log.len() - 1
     }
@@ -233,7 +236,8 @@ impl Core {
             self.spec.layout.iter().map(|s| (*s, false, self.spec.answer(c, *s))).collect();
         if let Some((at, dev)) = &self.spec.deviate_at {
             // (an answer without entries can only grow)
-            if *at == c && (!ans.is_empty() || matches!(dev, Deviation::Add(_))) {
+            if (*at == c || self.spec.deviate_again == Some(c)) && (!ans.is_empty() || matches!(dev, Deviation::Add(_))) {
+                self.log.borrow_mut()[li].deviated = true;
                 let n = ans.len().max(1);
                 match dev {
                     Deviation::Drop(p) => {
@@ -276,7 +280,7 @@ impl Core {
             .collect();
         if self.spec.foreign {
             match &self.spec.deviate_at {
-                Some((at, Deviation::ForeignReplaced(s))) if *at == c => {
+                Some((at, Deviation::ForeignReplaced(s))) if *at == c || self.spec.deviate_again == Some(c) => {
                     let v = self.spec.answer(c, *s);
                     self.log.borrow_mut()[li].answer.push((*s, v));
                     result.push(OutputEntry { signal: &self.signals[*s], value: to_outputvalue(v) });
